@@ -48,7 +48,7 @@ func PakRoundTrip(m int) {
 	if err2 != nil {
 		return
 	}
-	vp.Assert("same-memory-class", cartmap.ClassOfPak(p) == cartmap.ClassOfPak(q) && cartmap.ClassOfPak(p) != cartmap.ClassNone)
+	vp.Assert("same-memory-class", cartmap.ClassOfPak(p) == cartmap.ClassOfAcceptedPak(q) && cartmap.ClassOfPak(p) != cartmap.ClassNone)
 	vp.Assert("same-offset-in-8k-page", p&0x1FFF == q&0x1FFF)
 	vp.Reach("accepted")
 }
